@@ -29,3 +29,7 @@ pub use connection::verif_keyspace_hooks as verif_keyspace;
 
 #[cfg(scylla_verif)]
 pub(crate) use connection::verif_idle_connection_hooks;
+
+#[cfg(scylla_verif)]
+#[allow(missing_docs)]
+pub use connection::verif_pager_hooks as verif_pager;
